@@ -959,6 +959,14 @@ func (e *Engine) load(st *State, addr Val, t types.Type) Val {
 			v = x.F[i]
 		case *ArrayV:
 			v = x.E[i]
+		case *Term:
+			// a field of an opaque (external) struct value: opaque as well
+			if x.S == "Obj" {
+				e.C.DeclareFun("obj_field", []Sort{"Obj", SInt}, "Obj")
+				v = &Term{S: "Obj", T: fmt.Sprintf("(obj_field %s %d)", x.T, i)}
+				continue
+			}
+			unsupported("path into %s", valString(v))
 		default:
 			unsupported("path into %s", valString(v))
 		}
@@ -998,6 +1006,12 @@ func updatePath(root Val, path []int, v Val) Val {
 		n := &ArrayV{ElemT: x.ElemT, E: append([]Val{}, x.E...)}
 		n.E[path[0]] = updatePath(x.E[path[0]], path[1:], v)
 		return n
+	case *Term:
+		// writing a field of an opaque (external) struct value held in a local cell (e.g. &sdk.Result{Events: ...}):
+		// the value stays opaque; nothing observable in the model depends on it
+		if x.S == "Obj" {
+			return x
+		}
 	}
 	unsupported("update path into %s", valString(root))
 	return nil
